@@ -44,8 +44,8 @@ theorem lcp_term_releases (s : Srv) (m sid : Nat) (x : Sess)
 /-- **Authentication failure releases everything** (after the fix ab1f47b): a PAP request of the owner
     that is not accepted removes the session and returns the address an earlier successful
     authentication may have allocated. -/
-theorem auth_failure_releases (s : Srv) (m sid : Nat) (g : Bool) (r : Radius) (x : Sess)
-    (hx : AMap.lookup s.sessions sid = some x) (hm : x.mac = m) (hrej : papOk s r = false) :
+theorem auth_failure_releases (s : Srv) (m sid : Nat) (g : Pw) (r : Radius) (x : Sess)
+    (hx : AMap.lookup s.sessions sid = some x) (hm : x.mac = m) (hrej : papOk s g r = false) :
     Released (step s (.pap m sid g r)).1 sid x.serial (AMap.lookup s.alloc x.serial) := by
   have hg : ownerGate s m sid = some x := by unfold ownerGate; rw [hx]; simp [hm]
   obtain ⟨h1, h2⟩ := poolRelease_spec s x.serial
@@ -61,10 +61,10 @@ theorem second_termination_inert (s : Srv) (m sid : Nat) (hx : AMap.lookup s.ses
 /-- recorded finding KF-pppoe-idle-leak, as a theorem about the model: the idle sweep removes an
     addressed session but its address stays recorded as allocated and is not available. -/
 theorem KF_pppoe_idle_leak_witness :
-    let s := run (init false 30) [.padr 1 true, .pap 1 1 true .accept, .sweep]
+    let s := run (init false 30) [.padr 1 true, .pap 1 1 .good .accept, .sweep]
     s.sessions = [] ∧ s.alloc.length = 1 ∧ s.avail = [] := by decide
 
-example : (AMap.lookup (run (init false 30) [.padr 1 true, .pap 1 1 true .accept]).sessions 1).map
+example : (AMap.lookup (run (init false 30) [.padr 1 true, .pap 1 1 .good .accept]).sessions 1).map
     (fun x => (x.mac, x.ip)) = some (1, some 2) := by decide
 
 end Bng.Spec.C16Pppoe
